@@ -49,6 +49,14 @@ func checkSegmentFrom(payload []byte, selfContained, lz bool, chunks []int) (fai
 	}
 	given := backing[:len(payload)]
 	seg := &segment.Segment{Header: &segment.Header{IsSelfContained: selfContained}, Payload: &segment.Payload{UncompressedData: given}}
+	if junk := stats.Hash(payload); junk%3 != 0 {
+		// the computed fields are documented as "not read when encoding": whatever they hold (a forwarded segment keeps the
+		// values its decoder stored, a reused object those of its previous encoding) must not reach the wire
+		seg.Header.UncompressedPayloadLength = int32(junk >> 8)
+		seg.Header.CompressedPayloadLength = int32(junk >> 24)
+		seg.Header.Crc24 = uint32(junk>>13) | 1
+		seg.Payload.Crc32 = uint32(junk>>29) | 1
+	}
 	var buf bytes.Buffer
 	if err := codec.EncodeSegment(seg, &buf); err != nil {
 		return fmt.Sprintf("EncodeSegment failed for a %d-byte payload: %v", len(payload), err), false
@@ -170,6 +178,42 @@ func checkSegmentFrom(payload []byte, selfContained, lz bool, chunks []int) (fai
 			return fmt.Sprintf("a conforming segment built by the reference encoder (variant %d) decodes to a different payload/flag", i), false
 		}
 	}
+	// second use of the same objects: the Segment just encoded gets another payload and is encoded again by the same codec,
+	// and the segment just decoded is forwarded through the codec of the other kind (a proxy between a compressing and a
+	// plain connection). Both must come out exactly like a fresh object with that payload.
+	payload2 := append(append([]byte{}, payload...), 0x5a)
+	if len(payload2) > 1 {
+		payload2[0] ^= 0xff
+	}
+	if len(payload2) <= 131071 {
+		fresh := func(c segment.Codec, pl []byte) ([]byte, error) {
+			var b bytes.Buffer
+			err := c.EncodeSegment(&segment.Segment{Header: &segment.Header{IsSelfContained: selfContained}, Payload: &segment.Payload{UncompressedData: pl}}, &b)
+			return b.Bytes(), err
+		}
+		want, err1 := fresh(codec, payload2)
+		seg.Payload.UncompressedData = payload2
+		var again bytes.Buffer
+		err2 := codec.EncodeSegment(seg, &again)
+		if (err1 == nil) != (err2 == nil) || (err1 == nil && !bytes.Equal(want, again.Bytes())) {
+			if !(lz && len(payload2) > 65536 && kf.Open("DEP-lz4-offset-wrap-65536")) {
+				return fmt.Sprintf("a Segment object encoded a second time with another payload (%d bytes) gives other bytes than a fresh object with that payload (errors %v / %v): stale state of the first encoding reached the wire", len(payload2), err1, err2), false
+			}
+		}
+	}
+	other := segCodec(!lz)
+	wantFwd, err1 := func() ([]byte, error) {
+		var b bytes.Buffer
+		err := other.EncodeSegment(&segment.Segment{Header: &segment.Header{IsSelfContained: selfContained}, Payload: &segment.Payload{UncompressedData: payload}}, &b)
+		return b.Bytes(), err
+	}()
+	var fwd bytes.Buffer
+	err2 := other.EncodeSegment(dec, &fwd)
+	if (err1 == nil) != (err2 == nil) || (err1 == nil && !bytes.Equal(wantFwd, fwd.Bytes())) {
+		if !(!lz && len(payload) > 65536 && kf.Open("DEP-lz4-offset-wrap-65536")) {
+			return fmt.Sprintf("a decoded segment (%d-byte payload) forwarded through the %s codec gives other bytes than a fresh segment with the same payload (errors %v / %v): fields stored by the decoder reached the wire", len(payload), map[bool]string{true: "LZ4", false: "plain"}[!lz], err1, err2), false
+		}
+	}
 	return "", false
 }
 
@@ -184,11 +228,17 @@ func c06Property(rt *rapid.T) {
 	default:
 		n = rapid.IntRange(0, 131071).Draw(rt, "len")
 	}
-	class := rapid.IntRange(0, 4).Draw(rt, "class")
+	class := rapid.IntRange(0, 5).Draw(rt, "class")
 	seed := rapid.Uint64().Draw(rt, "seed")
 	var payload []byte
 	if class == 4 { // half repetitive, half random
 		payload = append(gen.Expand(0, seed, n/2), gen.Expand(3, seed, n-n/2)...)
+	} else if class == 5 { // incompressible, then a short compressible tail (the compressed form is about as long as the payload)
+		tail := rapid.SampledFrom([]int{5, 12, 16, 32, 200, 1000}).Draw(rt, "tail")
+		if tail > n {
+			tail = n
+		}
+		payload = append(gen.Expand(3, seed, n-tail), gen.Expand(0, seed, tail)...)
 	} else {
 		payload = gen.Expand(class, seed, n)
 	}
